@@ -1,9 +1,12 @@
 package main
 
 import (
+	"bytes"
 	"fmt"
 	"os"
 	"path/filepath"
+	"sort"
+	"sync"
 	"time"
 
 	"github.com/pkg/sftp"
@@ -15,35 +18,125 @@ import (
 
 func init() { register("c09", checkC09) }
 
+// c09Cfg is the server configuration next to ReadOnly(): none of these options may open a way around the gate.
+type c09Cfg struct {
+	Alloc   bool   `json:"alloc"`   // WithAllocator()
+	WorkDir string `json:"workdir"` // "" (option absent) | "tree" (WithServerWorkingDirectory(tree)) | "unclean" (tree written with ./, // and dir/..)
+	MaxTx   uint32 `json:"max_tx"`  // 0 = option absent, else WithMaxTxPacket(MaxTx)
+}
+
+func (c c09Cfg) String() string {
+	return fmt.Sprintf("alloc=%v,wd=%s,maxtx=%d", c.Alloc, c.WorkDir, c.MaxTx)
+}
+
+func (c c09Cfg) opts(tree string) []sftp.ServerOption {
+	o := []sftp.ServerOption{sftp.ReadOnly()}
+	if c.Alloc {
+		o = append(o, sftp.WithAllocator())
+	}
+	switch c.WorkDir {
+	case "tree":
+		o = append(o, sftp.WithServerWorkingDirectory(tree))
+	case "unclean":
+		o = append(o, sftp.WithServerWorkingDirectory(tree+"/./dir/..//"))
+	}
+	if c.MaxTx != 0 {
+		o = append(o, sftp.WithMaxTxPacket(c.MaxTx))
+	}
+	return o
+}
+
+// maxTx is the largest DATA payload the configuration allows.
+func (c c09Cfg) maxTx() int {
+	if c.MaxTx != 0 {
+		return int(c.MaxTx)
+	}
+	return 32768
+}
+
 type c09Req struct {
 	Desc   string `json:"desc"`
 	Typ    int    `json:"typ"`
 	Pflags uint32 `json:"pflags"`
 	Ext    string `json:"ext"`
-	Target string `json:"target"` // file | missing | dir | link | dlink
+	Target string `json:"target"` // file | missing | dir | link | dlink | nodir/child (parent missing)
 	AFlags uint32 `json:"attr_flags"`
-	Handle string `json:"handle_from"` // "", "file" (READ-only open) or "dir" (opendir)
+	Handle string `json:"handle_from"` // "" | file (OPEN, read-only pflags) | link | dirfile (OPEN READ of a directory) | dir | dlink (OPENDIR) | bogus (no such handle)
+
+	HPflags uint32   `json:"handle_pflags"` // pflags of the handle-obtaining OPEN (0 = READ)
+	Var     int      `json:"variant"`       // which attribute values / write shape / second path
+	Form    string   `json:"path_form"`     // "" or abs | rel | reldot | relup (relative forms need a working directory)
+	Cfg     c09Cfg   `json:"cfg"`
+	Reads   []string `json:"pipeline_reads,omitempty"` // non-empty: one pipelined burst  R0 X0 R1 X1 ... Rn  with X0 = this request
+	More    []c09Req `json:"pipeline_more,omitempty"`  // X1, X2, ... (cycled with X0 when there are fewer than gaps)
+}
+
+const c09BigLen = 34000
+
+func c09Big() []byte {
+	b := make([]byte, c09BigLen)
+	for i := range b {
+		b[i] = byte(i*7 + i>>8)
+	}
+	return b
 }
 
 func c09Tree(root string) {
 	os.RemoveAll(root)
 	os.MkdirAll(filepath.Join(root, "dir"), 0o755)
 	os.WriteFile(filepath.Join(root, "file"), []byte("hello world"), 0o644)
+	os.WriteFile(filepath.Join(root, "big"), c09Big(), 0o644)
 	os.WriteFile(filepath.Join(root, "dir", "inner"), []byte("x"), 0o600)
 	os.Symlink("file", filepath.Join(root, "link"))
 	os.Symlink("dir", filepath.Join(root, "dlink"))
 	old := time.Unix(1_000_000_000, 0)
-	for _, n := range []string{"dir/inner", "dir", "file"} {
+	for _, n := range []string{"dir/inner", "dir", "file", "big"} {
 		os.Chtimes(filepath.Join(root, n), old, old)
 	}
 	os.Chtimes(root, old, old)
+	os.Chtimes(filepath.Dir(root), old, old)
+}
+
+// c09Path writes the tree-relative name rel in the given form.
+func c09Path(tree, form, rel string) string {
+	switch form {
+	case "rel":
+		return rel
+	case "reldot":
+		return "./" + rel
+	case "relup":
+		return "dir/../" + rel
+	}
+	return filepath.Join(tree, rel)
+}
+
+// c09Second is the second path of two-path requests.
+func c09Second(r c09Req) string {
+	switch r.Var {
+	case 1:
+		return "dir/inner" // exists
+	case 2:
+		return "dir/new-" + r.Target
+	}
+	return "new-" + r.Target
+}
+
+// c09Attrs: every value differs from what the tree has, so applying any flagged field shows in the snapshot.
+func c09Attrs(flags uint32, v int) wire.St {
+	switch v {
+	case 1:
+		return wire.St{Flags: flags, Size: 0, UID: 65534, GID: 65534, Perm: 0o100777, Atime: 2_000_000_000, Mtime: 2_000_000_000, Ext: [][2]string{{"a@b", "c"}, {"", ""}}}
+	case 2:
+		return wire.St{Flags: flags, Size: 4096, UID: 0, GID: 7, Perm: 0, Atime: 1_000_000_000, Mtime: 1_000_000_001, Ext: nil}
+	}
+	return wire.St{Flags: flags, Size: 3, UID: 1, GID: 1, Perm: 0o600, Atime: 12345, Mtime: 12345, Ext: [][2]string{{"a@b", "c"}}}
 }
 
 // c09Frame builds the request frame for r against the tree at root; h is an open handle where needed.
 func c09Frame(r c09Req, id uint32, root, h string) []byte {
-	p := filepath.Join(root, r.Target)
-	p2 := filepath.Join(root, "new-"+r.Target)
-	attrs := wire.St{Flags: r.AFlags, Size: 3, UID: 1, GID: 1, Perm: 0o600, Atime: 12345, Mtime: 12345, Ext: [][2]string{{"a@b", "c"}}}
+	p := c09Path(root, r.Form, r.Target)
+	p2 := c09Path(root, r.Form, c09Second(r))
+	attrs := c09Attrs(r.AFlags, r.Var)
 	switch r.Typ {
 	case wire.Open:
 		return wire.Req(wire.Open, id, wire.B{}.Str(p).U32(r.Pflags).Raw(attrs.Block()))
@@ -52,6 +145,12 @@ func c09Frame(r c09Req, id uint32, root, h string) []byte {
 	case wire.Read:
 		return wire.Req(wire.Read, id, wire.B{}.Str(h).U64(0).U32(4))
 	case wire.Write:
+		switch r.Var {
+		case 1:
+			return wire.Req(wire.Write, id, wire.B{}.Str(h).U64(100).Bytes([]byte("Z")))
+		case 2:
+			return wire.Req(wire.Write, id, wire.B{}.Str(h).U64(0).Bytes(nil))
+		}
 		return wire.Req(wire.Write, id, wire.B{}.Str(h).U64(0).Bytes([]byte("ZZZZ")))
 	case wire.Lstat, wire.Opendir, wire.Remove, wire.Rmdir, wire.Realpath, wire.Stat, wire.Readlink:
 		return wire.Req(byte(r.Typ), id, wire.B{}.Str(p))
@@ -69,8 +168,10 @@ func c09Frame(r c09Req, id uint32, root, h string) []byte {
 		switch r.Ext {
 		case "statvfs@openssh.com":
 			return wire.Req(wire.Extended, id, wire.B{}.Str(r.Ext).Str(p))
-		case "fsync@openssh.com":
+		case "fsync@openssh.com", "fstatvfs@openssh.com":
 			return wire.Req(wire.Extended, id, wire.B{}.Str(r.Ext).Str(h))
+		case "lsetstat@openssh.com":
+			return wire.Req(wire.Extended, id, wire.B{}.Str(r.Ext).Str(p).Raw(c09Attrs(15, r.Var).Block()))
 		default:
 			return wire.Req(wire.Extended, id, wire.B{}.Str(r.Ext).Str(p).Str(p2))
 		}
@@ -78,156 +179,886 @@ func c09Frame(r c09Req, id uint32, root, h string) []byte {
 	return wire.Req(byte(r.Typ), id, wire.B{}.Str(p))
 }
 
-func c09Cases(thorough bool) []c09Req {
+var c09AFlags = []uint32{0, 1, 2, 4, 8, 3, 5, 9, 6, 10, 12, 7, 11, 13, 14, 15, wire.AExt, wire.AExt | 15, 0x40 | wire.APerm}
+
+var c09ExtNames = []string{"statvfs@openssh.com", "posix-rename@openssh.com", "hardlink@openssh.com", "fsync@openssh.com", "unknown@example.com", "",
+	"hardlink@openssh.com\x00", "HARDLINK@OPENSSH.COM", "posix-rename@openssh.co", "statvfs@openssh.com ", "fstatvfs@openssh.com", "lsetstat@openssh.com",
+	"copy-data", "limits@openssh.com"}
+
+type c09HKind struct {
+	kind string
+	pf   uint32
+}
+
+var c09HKinds = []c09HKind{{"file", 0}, {"file", wire.FRead | wire.FAppend}, {"file", wire.FRead | wire.FExcl}, {"file", wire.FRead | wire.FAppend | wire.FExcl},
+	{"link", 0}, {"dirfile", 0}, {"dir", 0}, {"dlink", 0}, {"bogus", 0}}
+
+// c09Base is the request product, independent of the server configuration (Cfg, Form, Var are filled in by the plan).
+func c09Base() []c09Req {
 	var out []c09Req
-	targets := []string{"file", "missing", "dir", "link", "dlink"}
+	targets := []string{"file", "missing", "dir", "link", "dlink", "nodir/child"}
 	for _, t := range targets {
 		for pf := uint32(0); pf < 64; pf++ {
-			out = append(out, c09Req{Desc: "open", Typ: wire.Open, Pflags: pf, Target: t, AFlags: wire.APerm})
+			for _, af := range c09AFlags {
+				out = append(out, c09Req{Desc: "open", Typ: wire.Open, Pflags: pf, Target: t, AFlags: af})
+			}
 		}
 		for _, typ := range []int{wire.Lstat, wire.Opendir, wire.Remove, wire.Mkdir, wire.Rmdir, wire.Realpath, wire.Stat, wire.Rename, wire.Readlink, wire.Symlink} {
 			out = append(out, c09Req{Desc: "path-request", Typ: typ, Target: t})
 		}
-		for _, e := range []string{"statvfs@openssh.com", "posix-rename@openssh.com", "hardlink@openssh.com", "fsync@openssh.com", "unknown@example.com", ""} {
+		for _, e := range c09ExtNames {
 			out = append(out, c09Req{Desc: "extended", Typ: wire.Extended, Ext: e, Target: t, Handle: "file"})
 		}
-		for _, af := range []uint32{0, 1, 2, 4, 8, 3, 5, 9, 6, 10, 12, 7, 11, 13, 14, 15, wire.AExt, wire.AExt | 15} {
+		for _, af := range c09AFlags {
 			out = append(out, c09Req{Desc: "setstat", Typ: wire.Setstat, Target: t, AFlags: af})
 		}
 	}
 	// through handles obtained read-only
-	for _, hf := range []string{"file", "dir"} {
+	for _, hk := range c09HKinds {
 		for _, typ := range []int{wire.Read, wire.Write, wire.Fstat, wire.Readdir, wire.Close} {
-			out = append(out, c09Req{Desc: "handle-request", Typ: typ, Handle: hf})
+			out = append(out, c09Req{Desc: "handle-request", Typ: typ, Handle: hk.kind, HPflags: hk.pf})
 		}
-		for _, af := range []uint32{0, 1, 2, 4, 8, 15, wire.AExt | 15} {
-			out = append(out, c09Req{Desc: "fsetstat", Typ: wire.Fsetstat, Handle: hf, AFlags: af})
+		for _, af := range c09AFlags {
+			out = append(out, c09Req{Desc: "fsetstat", Typ: wire.Fsetstat, Handle: hk.kind, HPflags: hk.pf, AFlags: af})
 		}
 	}
 	// unknown type bytes (not dispatched; the session may end) are exercised by C07, not here
 	return out
 }
 
+func c09Cfgs() []c09Cfg {
+	var out []c09Cfg
+	for _, mt := range []uint32{0, 32768, 1 << 20} {
+		for _, wd := range []string{"", "tree", "unclean"} {
+			for _, al := range []bool{false, true} {
+				out = append(out, c09Cfg{Alloc: al, WorkDir: wd, MaxTx: mt})
+			}
+		}
+	}
+	return out
+}
+
+func c09Forms(c c09Cfg) []string {
+	if c.WorkDir == "" {
+		return []string{"abs"} // relative names would be resolved against the harness's own working directory
+	}
+	return []string{"abs", "rel", "reldot", "relup"}
+}
+
+type c09Combo struct {
+	cfg  int
+	form string
+}
+
+var c09ReadKinds = []string{"read0", "readmid", "readhuge", "readeof", "fstat", "stat", "lstat", "readlink", "realpath", "statmissing"}
+
+// ---------- one server configuration ----------
+
+type c09Out struct {
+	fails     []lib.Failure
+	gate      map[string]string // model line -> implementation decision
+	gateOrder []string
+	notes     []string
+}
+
+type c09Sess struct {
+	cfg   c09Cfg
+	dir   string // snapshot root: contains only the served tree t/
+	tree  string
+	srv   *peers.Srv
+	id    uint32
+	snap  []string
+	out   *c09Out
+	r     *lib.Result
+	mu    *sync.Mutex
+	big   []byte
+	fatal bool
+	rx    int // bytes received from the current server
+}
+
+func (s *c09Sess) fail(f lib.Failure) { s.out.fails = append(s.out.fails, f) }
+
+func (s *c09Sess) start() bool {
+	srv, err := peers.StartOS(s.cfg.opts(s.tree)...)
+	if err != nil {
+		s.fail(lib.Failure{Kind: "tie", Key: "server-start", What: err.Error(), Input: s.cfg})
+		s.fatal = true
+		return false
+	}
+	s.srv, s.rx = srv, 0
+	if _, err := srv.Handshake(); err != nil {
+		s.fail(lib.Failure{Kind: "tie", Key: "handshake", What: err.Error(), Input: s.cfg})
+		s.fatal = true
+		return false
+	}
+	return true
+}
+
+func (s *c09Sess) stop() {
+	if s.srv != nil {
+		s.srv.CloseInput()
+		s.srv.Wait(5 * time.Second)
+	}
+}
+
+func (s *c09Sess) reset() {
+	c09Tree(s.tree)
+	s.snap = lib.Snapshot(s.dir, true)
+}
+
+func (s *c09Sess) restart() bool {
+	s.stop()
+	if !s.start() {
+		return false
+	}
+	s.reset()
+	return true
+}
+
+func (s *c09Sess) call(frame []byte) (wire.Pkt, error) {
+	p, err := s.srv.Call(frame)
+	s.rx += len(p.Body) + 5
+	return p, err
+}
+
+func (s *c09Sess) nextID() uint32 { s.id++; return s.id }
+
+func c09Status(p wire.Pkt) (uint32, string) {
+	if p.Typ != wire.Status || len(p.Body) < 4 {
+		return 0xffffffff, ""
+	}
+	d := wire.D{B: p.Body[4:]}
+	code := d.U32()
+	return code, d.Str()
+}
+
+func c09HandleOf(p wire.Pkt) string {
+	if p.Typ != wire.Handle || len(p.Body) < 4 {
+		return ""
+	}
+	d := wire.D{B: p.Body[4:]}
+	return d.Str()
+}
+
+// obtain gets the handle a request needs with a purely reading request. must: the property promises it works.
+func (s *c09Sess) obtain(kind string, pf uint32, form string) (h string, ok bool, err error) {
+	var f []byte
+	id := s.nextID()
+	if pf == 0 {
+		pf = wire.FRead
+	}
+	switch kind {
+	case "bogus":
+		return "nope", true, nil
+	case "file", "big":
+		f = wire.Req(wire.Open, id, wire.B{}.Str(c09Path(s.tree, form, kind)).U32(pf).U32(0))
+	case "link":
+		f = wire.Req(wire.Open, id, wire.B{}.Str(c09Path(s.tree, form, "link")).U32(wire.FRead).U32(0))
+	case "dirfile":
+		f = wire.Req(wire.Open, id, wire.B{}.Str(c09Path(s.tree, form, "dir")).U32(wire.FRead).U32(0))
+	case "dlink":
+		f = wire.Req(wire.Opendir, id, wire.B{}.Str(c09Path(s.tree, form, "dlink")))
+	default: // "dir"
+		f = wire.Req(wire.Opendir, id, wire.B{}.Str(c09Path(s.tree, form, "dir")))
+	}
+	p, err := s.call(f)
+	if err != nil {
+		return "", false, err
+	}
+	if p.Typ != wire.Handle {
+		code, msg := c09Status(p)
+		return fmt.Sprintf("typ=%d code=%d %q", p.Typ, code, msg), false, nil
+	}
+	return c09HandleOf(p), true, nil
+}
+
+func c09HandleMust(kind string, pf uint32) bool {
+	switch kind {
+	case "file", "big":
+		return pf == 0 || pf == wire.FRead
+	case "link", "dir", "dlink":
+		return true
+	}
+	return false
+}
+
+func (s *c09Sess) closeH(h string) {
+	if h != "" && h != "nope" {
+		s.call(wire.Req(wire.Close, s.nextID(), wire.B{}.Str(h)))
+	}
+}
+
+// c09Norm is what of a reply must be reproducible: type and body after the id; atime masked; statvfs numbers dropped.
+func c09Norm(p wire.Pkt) string {
+	if len(p.Body) < 4 {
+		return fmt.Sprintf("%d:short", p.Typ)
+	}
+	body := p.Body[4:]
+	switch p.Typ {
+	case wire.Attrs:
+		d := wire.D{B: body}
+		st := d.St()
+		st.Atime = 0
+		return fmt.Sprintf("%d:%x", p.Typ, st.Block())
+	case wire.ExtendedReply:
+		return fmt.Sprintf("%d:len%d", p.Typ, len(body))
+	case wire.Handle:
+		return fmt.Sprintf("%d", p.Typ)
+	}
+	return fmt.Sprintf("%d:", p.Typ) + string(body)
+}
+
+func (s *c09Sess) gateLine(q c09Req, p wire.Pkt) {
+	if q.Typ == wire.Close { // (a denied close would leak; CLOSE is read-only by Spec)
+		return
+	}
+	code, msg := c09Status(p)
+	line := fmt.Sprintf("c09.gate %d %d %s", q.Typ, q.Pflags, lib.Hex([]byte(q.Ext)))
+	dec := "allow"
+	if p.Typ == wire.Status && code == wire.PermissionDenied && msg == "operation not permitted" {
+		dec = "deny"
+	}
+	if old, ok := s.out.gate[line]; !ok {
+		s.out.gate[line] = dec
+		s.out.gateOrder = append(s.out.gateOrder, line)
+	} else if old != dec {
+		s.fail(lib.Failure{Kind: "oracle", Key: "gate-unstable/" + c09Key(q), What: "the same request shape is once refused and once let through by the read-only gate of one server", Input: q, Expected: old, Actual: dec})
+	}
+}
+
+func c09CaseKey(q c09Req) string {
+	k := fmt.Sprintf("typ%d/pf%d/ext=%s/%s/af%x/h=%s.%d/v%d/%s/%s", q.Typ, q.Pflags, q.Ext, q.Target, q.AFlags, q.Handle, q.HPflags, q.Var, q.Form, q.Cfg)
+	if len(q.Reads) > 0 {
+		k += fmt.Sprintf("/pipe%v", q.Reads)
+		for _, m := range q.More {
+			k += "+" + c09CaseKey(m)
+		}
+	}
+	return k
+}
+
+func (s *c09Sess) count(q c09Req, mut bool) {
+	s.mu.Lock()
+	defer s.mu.Unlock()
+	r := s.r
+	r.Case(c09CaseKey(q), mut)
+	if len(q.Reads) > 0 {
+		r.Hist("pipeline")
+		r.Hist(fmt.Sprintf("pipeline-len-%d", 2*len(q.Reads)-1))
+		for _, k := range q.Reads {
+			r.Hist("pipe-read/" + k)
+		}
+	} else {
+		r.Hist(q.Desc)
+	}
+	r.Hist("cfg/alloc=" + fmt.Sprint(q.Cfg.Alloc))
+	r.Hist("cfg/workdir=" + q.Cfg.WorkDir)
+	r.Hist(fmt.Sprintf("cfg/maxtx=%d", q.Cfg.MaxTx))
+	r.Hist("form/" + q.Form)
+	r.Hist(fmt.Sprintf("variant/%d", q.Var))
+	if q.Typ == wire.Open {
+		if c09MayMutate(q) {
+			r.Hist("open/denied-pflags")
+		} else {
+			r.Hist(fmt.Sprintf("open/reading-pflags/af%x", q.AFlags))
+		}
+	}
+	if q.Handle != "" && q.Typ != wire.Extended {
+		r.Hist(fmt.Sprintf("handle/%s.%d", q.Handle, q.HPflags))
+	}
+}
+
+func (s *c09Sess) noReply(q c09Req, err error) {
+	s.fail(lib.Failure{Kind: "oracle", Key: "no-reply/" + c09Key(q), What: "no reply from the read-only server: " + err.Error(), Input: q})
+	s.restart()
+}
+
+// checkTree is direct oracle 1: the whole served tree (and its parent) is as before.
+func (s *c09Sess) checkTree(q c09Req, keyPrefix string) bool {
+	after := lib.Snapshot(s.dir, true)
+	if diff := lib.DiffSnap(s.snap, after); len(diff) > 0 {
+		s.fail(lib.Failure{Kind: "oracle", Key: keyPrefix + c09Key(q), What: "read-only server changed the file system", Input: q,
+			Expected: "tree unchanged", Actual: diff})
+		s.reset()
+		return false
+	}
+	return true
+}
+
+// runOne: obtain handle (if any) -> the request -> (for reading path requests in a relative form: the same in absolute form) -> close; snapshot.
+func (s *c09Sess) runOne(q c09Req) {
+	mut := c09MayMutate(q)
+	s.count(q, mut)
+	h := ""
+	if q.Handle != "" {
+		hh, ok, err := s.obtain(q.Handle, q.HPflags, q.Form)
+		if err != nil {
+			s.noReply(q, err)
+			return
+		}
+		if !ok {
+			if c09HandleMust(q.Handle, q.HPflags) {
+				s.fail(lib.Failure{Kind: "oracle", Key: "readonly-open-refused/" + q.Handle, What: "read-only server did not hand out a handle for a pure read open: " + hh, Input: q})
+			} else {
+				s.mu.Lock()
+				s.r.Hist("handle-unavailable/" + q.Handle)
+				s.mu.Unlock()
+				s.checkTree(q, "")
+			}
+			return
+		}
+		h = hh
+	}
+	p, err := s.call(c09Frame(q, s.nextID(), s.tree, h))
+	if err != nil {
+		s.noReply(q, err)
+		return
+	}
+	code, msg := c09Status(p)
+	var toClose []string
+	if p.Typ == wire.Handle {
+		toClose = append(toClose, c09HandleOf(p))
+	}
+	// reads keep working, whatever the spelling of the path: same answer as for the absolute spelling
+	if !mut && q.Handle == "" && q.Form != "abs" && q.Form != "" {
+		q2 := q
+		q2.Form = "abs"
+		p2, err := s.call(c09Frame(q2, s.nextID(), s.tree, ""))
+		if err != nil {
+			s.noReply(q, err)
+			return
+		}
+		if p2.Typ == wire.Handle {
+			toClose = append(toClose, c09HandleOf(p2))
+		}
+		if a, b := c09Norm(p), c09Norm(p2); a != b {
+			s.fail(lib.Failure{Kind: "oracle", Key: fmt.Sprintf("read-differs-by-path-form/type-%d", q.Typ), What: "a purely reading request is answered differently for a relative path under the working directory than for the same absolute path", Input: q, Expected: c09Short(b), Actual: c09Short(a)})
+		}
+	}
+	if q.Typ != wire.Close {
+		toClose = append(toClose, h)
+	}
+	for _, x := range toClose {
+		s.closeH(x)
+	}
+	if s.checkTree(q, "") && mut && !(p.Typ == wire.Status && code == wire.PermissionDenied) {
+		// direct oracle 2: every modifying attempt is answered permission-denied
+		s.fail(lib.Failure{Kind: "oracle", Key: c09Key(q), What: "modifying request not answered with PERMISSION_DENIED by the read-only server", Input: q,
+			Expected: "STATUS 3", Actual: fmt.Sprintf("type %d code %d %q", p.Typ, code, msg)})
+	}
+	s.gateLine(q, p)
+}
+
+// readFrame builds one of the purely reading requests of a pipelined burst.
+func (s *c09Sess) readFrame(kind string, id uint32, form, hf, hb string) []byte {
+	switch kind {
+	case "read0":
+		return wire.Req(wire.Read, id, wire.B{}.Str(hf).U64(0).U32(4))
+	case "readmid":
+		return wire.Req(wire.Read, id, wire.B{}.Str(hb).U64(500).U32(40000))
+	case "readhuge":
+		return wire.Req(wire.Read, id, wire.B{}.Str(hb).U64(0).U32(300000))
+	case "readeof":
+		return wire.Req(wire.Read, id, wire.B{}.Str(hf).U64(1000).U32(10))
+	case "fstat":
+		return wire.Req(wire.Fstat, id, wire.B{}.Str(hf))
+	case "stat":
+		return wire.Req(wire.Stat, id, wire.B{}.Str(c09Path(s.tree, form, "file")))
+	case "lstat":
+		return wire.Req(wire.Lstat, id, wire.B{}.Str(c09Path(s.tree, form, "link")))
+	case "readlink":
+		return wire.Req(wire.Readlink, id, wire.B{}.Str(c09Path(s.tree, form, "link")))
+	case "realpath":
+		return wire.Req(wire.Realpath, id, wire.B{}.Str(c09Path(s.tree, form, "file")))
+	}
+	return wire.Req(wire.Stat, id, wire.B{}.Str(c09Path(s.tree, form, "missing")))
+}
+
+// readWrong says what is wrong with the reply to a reading request ("" = as the tree dictates).
+func (s *c09Sess) readWrong(kind string, p wire.Pkt) string {
+	if len(p.Body) < 4 {
+		return "short reply"
+	}
+	d := wire.D{B: p.Body[4:]}
+	data := func(want []byte) string {
+		if p.Typ != wire.Data {
+			code, msg := c09Status(p)
+			return fmt.Sprintf("expected DATA, got type %d code %d %q", p.Typ, code, msg)
+		}
+		got := d.Bytes()
+		if !bytes.Equal(got, want) {
+			return fmt.Sprintf("DATA of %d bytes, expected the %d bytes of the file at that offset (equal prefix? %v)", len(got), len(want), len(got) <= len(want) && bytes.Equal(got, want[:len(got)]))
+		}
+		return ""
+	}
+	status := func(want uint32) string {
+		if code, msg := c09Status(p); p.Typ != wire.Status || code != want {
+			return fmt.Sprintf("expected STATUS %d, got type %d code %d %q", want, p.Typ, code, msg)
+		}
+		return ""
+	}
+	name := func(want string) string {
+		if p.Typ != wire.Name {
+			code, msg := c09Status(p)
+			return fmt.Sprintf("expected NAME, got type %d code %d %q", p.Typ, code, msg)
+		}
+		if n := d.U32(); n != 1 {
+			return fmt.Sprintf("NAME with %d entries", n)
+		}
+		if got := d.Str(); got != want {
+			return fmt.Sprintf("NAME %q, expected %q", got, want)
+		}
+		return ""
+	}
+	attrs := func(size uint64, perm uint32) string {
+		if p.Typ != wire.Attrs {
+			code, msg := c09Status(p)
+			return fmt.Sprintf("expected ATTRS, got type %d code %d %q", p.Typ, code, msg)
+		}
+		st := d.St()
+		if st.Flags&wire.ASize == 0 || st.Size != size || st.Flags&wire.APerm == 0 || st.Perm != perm {
+			return fmt.Sprintf("ATTRS flags %x size %d perm %o, expected size %d perm %o", st.Flags, st.Size, st.Perm, size, perm)
+		}
+		return ""
+	}
+	switch kind {
+	case "read0":
+		return data([]byte("hell"))
+	case "readmid":
+		return data(s.big[500 : 500+min(40000, s.cfg.maxTx(), c09BigLen-500)])
+	case "readhuge":
+		return data(s.big[:min(300000, s.cfg.maxTx(), c09BigLen)])
+	case "readeof":
+		return status(wire.EOF)
+	case "fstat", "stat":
+		return attrs(11, 0o100644)
+	case "lstat":
+		return attrs(4, 0o120777)
+	case "readlink":
+		return name("file")
+	case "realpath":
+		return name(filepath.Join(s.tree, "file"))
+	}
+	return status(wire.NoSuchFile)
+}
+
+// runPipe: one burst  R0 X0 R1 X1 ... Rn  written in a single write; the reads must be answered exactly as when sent alone.
+func (s *c09Sess) runPipe(q c09Req) {
+	xs := append([]c09Req{q}, q.More...)
+	for i := range xs {
+		xs[i].Form, xs[i].Cfg = q.Form, q.Cfg
+	}
+	anyMut := false
+	for _, x := range xs {
+		anyMut = anyMut || c09MayMutate(x)
+	}
+	s.count(q, anyMut)
+	var opened []string
+	defer func() {
+		for _, h := range opened {
+			s.closeH(h)
+		}
+	}()
+	get := func(kind string, pf uint32) (string, bool) {
+		h, ok, err := s.obtain(kind, pf, q.Form)
+		if err != nil {
+			s.noReply(q, err)
+			opened = nil
+			return "", false
+		}
+		if !ok {
+			if c09HandleMust(kind, pf) {
+				s.fail(lib.Failure{Kind: "oracle", Key: "readonly-open-refused/" + kind, What: "read-only server did not hand out a handle for a pure read open: " + h, Input: q})
+			}
+			return "", false
+		}
+		opened = append(opened, h)
+		return h, true
+	}
+	hf, ok1 := get("file", 0)
+	if !ok1 {
+		return
+	}
+	hb, ok2 := get("big", 0)
+	if !ok2 {
+		return
+	}
+	hx := make([]string, len(xs))
+	for i, x := range xs {
+		if x.Handle != "" {
+			h, ok := get(x.Handle, x.HPflags)
+			if !ok {
+				s.mu.Lock()
+				s.r.Hist("handle-unavailable/" + x.Handle)
+				s.mu.Unlock()
+				s.checkTree(q, "pipeline/")
+				return
+			}
+			hx[i] = h
+		}
+	}
+	solo := func(judge bool) (map[string]string, bool) {
+		m := map[string]string{}
+		for _, k := range q.Reads {
+			if _, ok := m[k]; ok {
+				continue
+			}
+			p, err := s.call(s.readFrame(k, s.nextID(), q.Form, hf, hb))
+			if err != nil {
+				s.noReply(q, err)
+				opened = nil
+				return nil, false
+			}
+			if w := s.readWrong(k, p); judge && w != "" {
+				s.fail(lib.Failure{Kind: "oracle", Key: "read-broken/" + k, What: "a purely reading request is not answered from the file system by the read-only server", Input: q, Actual: w})
+			}
+			m[k] = c09Norm(p)
+		}
+		return m, true
+	}
+	ref, ok := solo(true)
+	if !ok {
+		return
+	}
+	// the burst
+	type slot struct {
+		id   uint32
+		read string
+		x    int
+	}
+	var slots []slot
+	var burst []byte
+	for i, k := range q.Reads {
+		id := s.nextID()
+		slots = append(slots, slot{id: id, read: k, x: -1})
+		burst = append(burst, s.readFrame(k, id, q.Form, hf, hb)...)
+		if i+1 < len(q.Reads) {
+			xi := i % len(xs)
+			id := s.nextID()
+			slots = append(slots, slot{id: id, x: xi})
+			burst = append(burst, c09Frame(xs[xi], id, s.tree, hx[xi])...)
+		}
+	}
+	if err := s.srv.Send(burst); err != nil {
+		s.noReply(q, err)
+		opened = nil
+		return
+	}
+	replies := map[uint32]wire.Pkt{}
+	for range slots {
+		p, err := s.srv.Recv(20 * time.Second)
+		s.rx += len(p.Body) + 5
+		if err != nil {
+			s.fail(lib.Failure{Kind: "oracle", Key: "pipeline/no-reply/" + c09Key(q), What: fmt.Sprintf("only %d of %d pipelined requests were answered by the read-only server: %v", len(replies), len(slots), err), Input: q})
+			opened = nil
+			s.restart()
+			return
+		}
+		if _, dup := replies[p.ID()]; dup {
+			s.fail(lib.Failure{Kind: "oracle", Key: "pipeline/duplicate-reply", What: "two replies with one id in a pipelined burst", Input: q, Actual: p.ID()})
+		}
+		replies[p.ID()] = p
+	}
+	for _, sl := range slots {
+		if sl.x >= 0 {
+			if p, ok := replies[sl.id]; ok && p.Typ == wire.Handle {
+				opened = append(opened, c09HandleOf(p))
+			}
+		}
+	}
+	ref2, ok := solo(false) // (judged by comparison with the first)
+	if !ok {
+		return
+	}
+	for _, h := range opened {
+		s.closeH(h)
+	}
+	opened = nil
+	treeOK := true
+	if diff := lib.DiffSnap(s.snap, lib.Snapshot(s.dir, true)); len(diff) > 0 {
+		// which request of the burst did it? each one alone on a fresh tree; only if none does, the burst as a whole is reported
+		treeOK = false
+		s.reset()
+		nf := len(s.out.fails)
+		for _, x := range xs {
+			x.Reads, x.More = nil, nil
+			s.runOne(x)
+		}
+		if len(s.out.fails) == nf {
+			s.fail(lib.Failure{Kind: "oracle", Key: "pipeline/" + c09Key(q), What: "read-only server changed the file system during a pipelined burst (none of its requests does so alone)", Input: q,
+				Expected: "tree unchanged", Actual: diff})
+		}
+		return
+	}
+	for _, sl := range slots {
+		p, ok := replies[sl.id]
+		if !ok {
+			s.fail(lib.Failure{Kind: "oracle", Key: "pipeline/unanswered", What: "a pipelined request got no reply of its own id", Input: q, Actual: fmt.Sprint(sl)})
+			continue
+		}
+		if sl.x < 0 {
+			if ref[sl.read] != ref2[sl.read] {
+				s.out.notes = append(s.out.notes, "reference reply for "+sl.read+" not reproducible; burst not judged")
+				continue
+			}
+			if got := c09Norm(p); got != ref[sl.read] {
+				what := s.readWrong(sl.read, p)
+				s.fail(lib.Failure{Kind: "oracle", Key: "pipeline/read-disturbed/" + sl.read, What: "a read pipelined around other requests is answered differently from the same read sent alone", Input: q,
+					Expected: c09Short(ref[sl.read]), Actual: c09Short(got) + " " + what})
+			}
+			continue
+		}
+		x := xs[sl.x]
+		code, msg := c09Status(p)
+		if treeOK && c09MayMutate(x) && !(p.Typ == wire.Status && code == wire.PermissionDenied) {
+			s.fail(lib.Failure{Kind: "oracle", Key: "pipeline/" + c09Key(x), What: "modifying request inside a pipelined burst not answered with PERMISSION_DENIED by the read-only server", Input: q,
+				Expected: "STATUS 3", Actual: fmt.Sprintf("type %d code %d %q", p.Typ, code, msg)})
+		}
+		s.gateLine(x, p)
+	}
+}
+
+func c09Short(s string) string {
+	if len(s) > 64 {
+		return fmt.Sprintf("%q…(%d bytes)", s[:64], len(s))
+	}
+	return fmt.Sprintf("%q", s)
+}
+
+func (s *c09Sess) run(q c09Req) {
+	if s.fatal {
+		return
+	}
+	if len(q.Reads) > 0 {
+		s.runPipe(q)
+	} else {
+		s.runOne(q)
+	}
+}
+
+// ---------- the plan ----------
+
 func checkC09(c *lib.Ctx) {
 	r := c.R
-	r.Rule = "exhaustive product: OPEN x 64 pflags x 5 targets (file, missing, dir, symlink, dir-symlink); every path request x 5 targets; SETSTAT/FSETSTAT x attribute-flag subsets; READ/WRITE/FSTAT/READDIR/CLOSE/FSETSTAT through handles obtained read-only; extended requests (3 served names, fsync, unknown, empty) against a real ReadOnly() server on a scratch tree with a full snapshot (names, modes, sizes, nlink, owners, contents, link texts, mtimes) before and after each request; non-trivial = request that may mutate per Spec, distinct by (type, pflags, ext, target, attr flags, handle kind)"
-	r.Exhaustive = true
-	cases := c09Cases(c.Tier == "thorough")
+	thorough := c.Tier == "thorough"
+	r.Rule = "request product: OPEN x 64 pflags x 19 attribute-flag words (all 16 subsets of SIZE/UIDGID/PERMISSIONS/ACMODTIME, EXTENDED, unknown bit; every value differs from the tree) x 6 targets (file, missing, dir, symlink, dir-symlink, child of a missing directory); every path request x 6 targets; SETSTAT and FSETSTAT x 19 attribute-flag words; READ/WRITE/FSTAT/READDIR/CLOSE/FSETSTAT through handles obtained read-only (OPEN with each of the 4 reading pflags, OPEN of a symlink, OPEN of a directory, OPENDIR, OPENDIR of a symlink, unknown handle); extended requests (3 served names, 11 unknown/near-miss names). Configuration: ReadOnly() x WithAllocator{off,on} x WithServerWorkingDirectory{absent, tree, tree spelt unclean} x WithMaxTxPacket{absent, 32768, 1 MiB}, one real server and one scratch tree per configuration (run in parallel); path form {absolute; with a working directory also relative, ./relative, dir/../relative}; 3 value sets for attributes / WRITE shape / second path. thorough: the full product; quick: every request that the gate lets through (reading OPENs with every attribute word, reading path/handle requests) under every second (configuration, path form) pair (parity alternates with case index and seed), every other request under 4 of the 54 pairs rotated with the case index and the seed, value set rotated. Pipelined bursts R0 X R1 X' R2 (one write): reads (READ of 4, 40000, 300000 bytes and at EOF, FSTAT, STAT, LSTAT, READLINK, REALPATH, STAT missing) around every request of the product (+ PRNG bursts of up to 6 reads in thorough): reads must be answered byte-identically to the same read alone (atime masked) and as the tree dictates (READ length = min(len, max tx packet, rest of file)). Oracle: full snapshot (names, types+modes, sizes, nlink, owners, content hashes, link texts, mtimes) of the served tree and its parent before and after each case (handle open, request, absolute-form twin, close); modifying requests answered PERMISSION_DENIED; reading path requests answered the same for every path form. non-trivial = request that may mutate per Spec, distinct by (type, pflags, ext, target, attr flags, handle kind, variant, path form, configuration)"
+	r.Exhaustive = thorough
+	base := c09Base()
+	cfgs := c09Cfgs()
+	var combos []c09Combo
+	for i, cf := range cfgs {
+		for _, f := range c09Forms(cf) {
+			combos = append(combos, c09Combo{i, f})
+		}
+	}
+	nc := len(combos)
+	seed := int(c.Seed % 1000)
+	if seed < 0 {
+		seed = -seed
+	}
+
+	// PRNG bursts are drawn up front (one generator); everything else is enumerated lazily per configuration.
+	prng := make([][]c09Req, len(cfgs))
+	var replay []c09Req
 	if c.Replay != "" {
 		var one c09Req
 		if err := lib.ReadReplay(c.Replay, &one); err != nil {
 			r.Fail(lib.Failure{Kind: "tie", Key: "replay", What: err.Error()})
 			return
 		}
-		cases = []c09Req{one}
+		if one.Form == "" {
+			one.Form = "abs"
+		}
+		cfgs = []c09Cfg{one.Cfg}
+		replay = []c09Req{one}
+	} else if thorough {
+		for _, cb := range combos {
+			for n := 0; n < 300; n++ {
+				q := base[c.Rand.Intn(len(base))]
+				q.Var = c.Rand.Intn(3)
+				nr := 2 + c.Rand.Intn(5)
+				for t := 0; t < nr; t++ {
+					q.Reads = append(q.Reads, c09ReadKinds[c.Rand.Intn(len(c09ReadKinds))])
+				}
+				for t := c.Rand.Intn(nr); t > 0; t-- {
+					m := base[c.Rand.Intn(len(base))]
+					m.Var = c.Rand.Intn(3)
+					q.More = append(q.More, m)
+				}
+				q.Cfg, q.Form = cfgs[cb.cfg], cb.form
+				prng[cb.cfg] = append(prng[cb.cfg], q)
+			}
+		}
 	}
+	// gen enumerates the cases of configuration ci, in a fixed order.
+	gen := func(ci int, emit func(c09Req)) {
+		if replay != nil {
+			for _, q := range replay {
+				emit(q)
+			}
+			return
+		}
+		add := func(q c09Req, cb c09Combo) {
+			if cb.cfg == ci {
+				q.Cfg, q.Form = cfgs[cb.cfg], cb.form
+				emit(q)
+			}
+		}
+		for i, q := range base {
+			usesVar := q.AFlags != 0 || q.Typ == wire.Write || q.Typ == wire.Rename || q.Typ == wire.Symlink || q.Typ == wire.Mkdir || q.Typ == wire.Extended
+			every := !c09MayMutate(q)
+			for j, cb := range combos {
+				if cb.cfg != ci {
+					continue
+				}
+				if thorough {
+					nv := 1
+					if usesVar {
+						nv = 3
+					}
+					for v := 0; v < nv; v++ {
+						q.Var = v
+						add(q, cb)
+					}
+					continue
+				}
+				sel := every && (i+j+seed)%2 == 0
+				for k := 0; k < 4 && !sel; k++ {
+					sel = (i*7+seed*5+k*9)%nc == j
+				}
+				if sel {
+					q.Var = 0
+					if usesVar {
+						q.Var = (i + j + seed) % 3
+					}
+					add(q, cb)
+				}
+			}
+		}
+		// pipelined bursts around every request of the product
+		per := 1
+		if thorough {
+			per = 6
+		}
+		for i, q := range base {
+			for k := 0; k < per; k++ {
+				j := (i*11 + seed*3 + k*9) % nc
+				if combos[j].cfg != ci {
+					continue
+				}
+				q.Var = (i + k + seed) % 3
+				q.Reads = nil
+				for t := 0; t < 3; t++ {
+					q.Reads = append(q.Reads, c09ReadKinds[(i+k*3+t*(1+i%7)+seed)%len(c09ReadKinds)])
+				}
+				q.More = []c09Req{base[(i*13+k+seed*17+1)%len(base)]}
+				q.More[0].Var = (i + 1) % 3
+				add(q, combos[j])
+			}
+		}
+		for _, q := range prng[ci] {
+			emit(q)
+		}
+	}
+
 	root, err := os.MkdirTemp("", "vh-c09-")
 	if err != nil {
 		r.Fail(lib.Failure{Kind: "tie", Key: "tmpdir", What: err.Error()})
 		return
 	}
 	defer os.RemoveAll(root)
-	tree := filepath.Join(root, "t")
 
-	var srv *peers.Srv
-	start := func() bool {
-		var err error
-		srv, err = peers.StartOS(sftp.ReadOnly())
-		if err != nil {
-			r.Fail(lib.Failure{Kind: "tie", Key: "server-start", What: err.Error()})
-			return false
-		}
-		if _, err := srv.Handshake(); err != nil {
-			r.Fail(lib.Failure{Kind: "tie", Key: "handshake", What: err.Error()})
-			return false
-		}
-		return true
-	}
-	if !start() {
-		return
-	}
-	defer func() { srv.CloseInput(); srv.Wait(5 * time.Second) }()
-
-	var lines, impl []string
-	id := uint32(100)
-	c09Tree(tree)
-	before := lib.Snapshot(tree, true)
-	for _, q := range cases {
-		id++
-		h := ""
-		if q.Handle != "" {
-			// obtain a handle with a read-only request; this itself must not change anything
-			var f []byte
-			if q.Handle == "file" {
-				f = wire.Req(wire.Open, id, wire.B{}.Str(filepath.Join(tree, "file")).U32(wire.FRead).U32(0))
-			} else {
-				f = wire.Req(wire.Opendir, id, wire.B{}.Str(filepath.Join(tree, "dir")))
-			}
-			p, err := srv.Call(f)
-			if err != nil || p.Typ != wire.Handle {
-				r.Fail(lib.Failure{Kind: "oracle", Key: "readonly-open-refused/" + q.Handle, What: fmt.Sprintf("read-only server did not hand out a handle for a pure read open: typ=%d err=%v", p.Typ, err), Input: q})
-				continue
-			}
-			d := wire.D{B: p.Body[4:]}
-			h = d.Str()
-			id++
-		}
-		p, err := srv.Call(c09Frame(q, id, tree, h))
-		after := lib.Snapshot(tree, true)
-		key := fmt.Sprintf("typ%d/pf%d/ext=%s/%s/af%x/h=%s", q.Typ, q.Pflags, q.Ext, q.Target, q.AFlags, q.Handle)
-		mut := c09MayMutate(q)
-		r.Case(key, mut)
-		r.Hist(q.Desc)
-		if len(r.Samples) < 6 && (q.Pflags == 0x1a || q.Ext == "hardlink@openssh.com" || q.Typ == wire.Fsetstat) {
-			r.Sample(q)
-		}
-		if err != nil {
-			r.Fail(lib.Failure{Kind: "oracle", Key: "no-reply/" + key, What: "no reply from the read-only server: " + err.Error(), Input: q})
-			srv.CloseInput()
-			srv.Wait(5 * time.Second)
-			if !start() {
-				return
-			}
-			c09Tree(tree)
-			before = lib.Snapshot(tree, true)
+	// a few written-out cases
+	for ci := range cfgs {
+		if ci%4 != 3 || replay != nil {
 			continue
 		}
-		code, msg := uint32(0xffffffff), ""
-		if p.Typ == wire.Status {
-			d := wire.D{B: p.Body[4:]}
-			code = d.U32()
-			msg = d.Str()
+		taken := false
+		gen(ci, func(q c09Req) {
+			if taken {
+				return
+			}
+			switch ci / 4 {
+			case 0:
+				taken = q.Pflags == 0x21 && q.AFlags == 5 && q.Form != "abs"
+			case 1:
+				taken = q.Ext == "hardlink@openssh.com"
+			case 2:
+				taken = q.Typ == wire.Fsetstat && q.Handle == "dirfile"
+			default:
+				taken = len(q.Reads) > 0
+			}
+			if taken {
+				r.Sample(q)
+			}
+		})
+	}
+
+	outs := make([]*c09Out, len(cfgs))
+	var mu sync.Mutex
+	var wg sync.WaitGroup
+	big := c09Big()
+	for ci := range cfgs {
+		outs[ci] = &c09Out{gate: map[string]string{}}
+		wg.Add(1)
+		go func(ci int) {
+			defer wg.Done()
+			dir := filepath.Join(root, fmt.Sprintf("cfg%02d", ci))
+			s := &c09Sess{cfg: cfgs[ci], dir: dir, tree: filepath.Join(dir, "t"), id: 100, out: outs[ci], r: r, mu: &mu, big: big}
+			os.MkdirAll(dir, 0o755)
+			c09Tree(s.tree)
+			if !s.start() {
+				return
+			}
+			defer s.stop()
+			s.reset()
+			n := 0
+			gen(ci, func(q c09Req) {
+				if n++; (n%5000 == 0 || s.rx > 4<<20) && !s.fatal {
+					// a fresh server now and then (the raw peer keeps every byte the server ever wrote)
+					s.restart()
+				}
+				s.run(q)
+			})
+			if s.fatal {
+				return
+			}
+			// purely reading requests keep working (spot oracle at the end of the session): STAT of the file answers ATTRS
+			if p, err := s.call(wire.Req(wire.Stat, s.nextID(), wire.B{}.Str(filepath.Join(s.tree, "file")))); err != nil || p.Typ != wire.Attrs {
+				s.fail(lib.Failure{Kind: "oracle", Key: "read-refused/stat", What: "STAT on a read-only server did not answer ATTRS", Input: s.cfg, Actual: fmt.Sprint(p.Typ, err)})
+			}
+		}(ci)
+	}
+	wg.Wait()
+
+	// merge, in configuration order
+	gate := map[string]string{}
+	var lines, impl []string
+	notes := map[string]int{}
+	for ci, o := range outs {
+		for _, f := range o.fails {
+			r.Fail(f)
 		}
-		// direct oracle 1: nothing changed
-		if diff := lib.DiffSnap(before, after); len(diff) > 0 {
-			r.Fail(lib.Failure{Kind: "oracle", Key: c09Key(q), What: "read-only server changed the file system", Input: q,
-				Expected: "tree unchanged", Actual: diff})
-			c09Tree(tree)
-			before = lib.Snapshot(tree, true)
-		} else if mut && !(p.Typ == wire.Status && code == wire.PermissionDenied) {
-			// direct oracle 2: every modifying attempt is answered permission-denied
-			r.Fail(lib.Failure{Kind: "oracle", Key: c09Key(q), What: "modifying request not answered with PERMISSION_DENIED by the read-only server", Input: q,
-				Expected: "STATUS 3", Actual: fmt.Sprintf("type %d code %d %q", p.Typ, code, msg)})
+		for _, n := range o.notes {
+			notes[n]++
 		}
-		// model correspondence: gate decision
-		if q.Typ != wire.Close { // (a denied close would leak; CLOSE is read-only by Spec and checked by oracle 2's complement below)
-			gateDenied := p.Typ == wire.Status && code == wire.PermissionDenied && msg == "operation not permitted"
-			lines = append(lines, fmt.Sprintf("c09.gate %d %d %s", q.Typ, q.Pflags, lib.Hex([]byte(q.Ext))))
-			if gateDenied {
-				impl = append(impl, "deny")
-			} else {
-				impl = append(impl, "allow")
+		for _, l := range o.gateOrder {
+			if old, ok := gate[l]; !ok {
+				gate[l] = o.gate[l]
+				lines = append(lines, l)
+				impl = append(impl, o.gate[l])
+			} else if old != o.gate[l] {
+				r.Fail(lib.Failure{Kind: "oracle", Key: "gate-depends-on-configuration", What: "the read-only gate decides the same request shape differently under different server options", Input: map[string]any{"op": l, "cfg": cfgs[ci]}, Expected: old, Actual: o.gate[l]})
 			}
 		}
-		if h != "" && q.Typ != wire.Close {
-			id++
-			srv.Call(wire.Req(wire.Close, id, wire.B{}.Str(h)))
-		}
 	}
-	// purely reading requests keep working (spot oracle): STAT of the file answers ATTRS
-	id++
-	if p, err := srv.Call(wire.Req(wire.Stat, id, wire.B{}.Str(filepath.Join(tree, "file")))); err != nil || p.Typ != wire.Attrs {
-		r.Fail(lib.Failure{Kind: "oracle", Key: "read-refused/stat", What: "STAT on a read-only server did not answer ATTRS", Actual: fmt.Sprint(p.Typ, err)})
+	var nk []string
+	for n := range notes {
+		nk = append(nk, n)
+	}
+	sort.Strings(nk)
+	for _, n := range nk {
+		r.Note("%s (x%d)", n, notes[n])
 	}
 	c.Compare("c09", lines, impl)
 }
